@@ -774,6 +774,71 @@ impl<'a> Gen<'a> {
         }
     }
 
+    /// two or three loops over ONE body (often nullable or ambiguously splittable) with nested, adjacent, gapped,
+    /// point or unbounded ranges, combined by union / intersection / difference / concatenation, and once more
+    /// behind a common prefix so that the combination also arises inside a derivative
+    fn gen_loops_same_body(&mut self) {
+        let body = match self.rng.below(4) {
+            0 => self.pick(),
+            1 => {
+                // (eps + x) or (x + xx): a word does not determine its repetition count
+                let x = match self.pick_kind(&[Kind::Atom]) {
+                    Some(i) => i,
+                    None => self.gen_atom(),
+                };
+                if self.rng.chance(1, 2) {
+                    self.push(Op::Opt(x), Kind::Other)
+                } else {
+                    let xx = self.push(Op::Concat(x, x), Kind::Other);
+                    self.push(Op::Union(x, xx), Kind::Other)
+                }
+            }
+            2 => {
+                let i = self.pick();
+                self.push(Op::Comp(i), Kind::Other)
+            }
+            _ => match self.pick_kind(&[Kind::Atom, Kind::Str, Kind::Sigma]) {
+                Some(i) => i,
+                None => self.gen_atom(),
+            },
+        };
+        let mk = |g: &mut Self| -> usize {
+            let lo = g.rng.below(4) as u32;
+            let op = match g.rng.below(7) {
+                0 => Op::Star(body),
+                1 => Op::Plus(body),
+                2 => Op::Exp(body, lo.max(1) + 1),
+                3 => Op::LoopInf(body, lo + 1),
+                4 => Op::Opt(body),
+                _ => Op::SmtLoop(body, lo, lo + g.rng.below(3) as u32),
+            };
+            g.push(op, Kind::Other)
+        };
+        let l1 = mk(self);
+        let l2 = mk(self);
+        let comb = match self.rng.below(5) {
+            0 => Op::Union(l1, l2),
+            1 | 2 => Op::Inter(l1, l2),
+            3 => Op::Diff(l1, l2),
+            _ => Op::Concat(l1, l2),
+        };
+        let c = self.push(comb, Kind::Other);
+        if self.rng.chance(1, 2) {
+            let l3 = mk(self);
+            let op = if self.rng.chance(1, 2) { Op::UnionList(vec![l3, l1, l2]) } else { Op::InterList(vec![l1, l3, l2]) };
+            self.push(op, Kind::Other);
+        }
+        if self.rng.chance(1, 2) {
+            // c.l1 + c.l2: the union of the two loops appears only after taking the derivative
+            let ch = self.point();
+            let p = self.push(Op::Char(ch), Kind::Atom);
+            let a = self.push(Op::Concat(p, l1), Kind::Other);
+            let b = self.push(Op::Concat(p, l2), Kind::Other);
+            self.push(Op::Union(a, b), Kind::Other);
+        }
+        let _ = c;
+    }
+
     /// a union / intersection-of-complements / concatenation with exactly N operands, N around a power of two
     fn gen_wide_list(&mut self) {
         let n = *self.rng.pick(&[7usize, 8, 9, 15, 16, 17, 31, 32, 33, 63, 64, 65]);
@@ -809,6 +874,10 @@ impl<'a> Gen<'a> {
     fn step(&mut self) {
         if self.n() >= 3 && self.prof != Profile::Small && self.rng.chance(1, 40) {
             self.gen_constant_two_ways();
+            return;
+        }
+        if self.n() >= 3 && self.prof != Profile::Small && self.rng.chance(1, 30) {
+            self.gen_loops_same_body();
             return;
         }
         if self.n() >= 3 && self.prof != Profile::Small && self.prof != Profile::Patterns && self.rng.chance(1, 150) {
